@@ -41,7 +41,9 @@ def run(tier, seed, ev):
             plan = [("get", [one]), ("get_reader", [one]), ("get_range", [one]), ("get_size", [one])]
         rc = tcommon.best(rc, tprop.run_t(PROP, tier, seed, ev, ex, plan, N=2))
         import sprop
-        plans = [(("put", "get"), 1, 2), (("remove", "get"), 1, 1)]
+        # put||remove: a put that has RETURNED must be readable - no interleaving with a writer may leave its key pointing
+        # to a missing blob (a dangling key makes every later get / get_range / get_reader of it fail)
+        plans = [(("put", "get"), 1, 2), (("remove", "get"), 1, 1), (("put", "remove"), 1, 2)]
         if tier == "thorough":
             plans += [(("put", "get"), 2, 2), (("get", "get"), 1, 1)]
         rc = tcommon.best(rc, sprop.run_s(PROP, tier, seed, ev, ex, plans))
